@@ -97,8 +97,14 @@ class PropBase:
 
     def pre_op(self, sess, i: int, step: dict):
         """Runs before an operation step (generic or own): fault injection tied to the step."""
+        sess.low = None
         if step.get("scan") and step["op"] in ("build", "marshal", "unmarshal", "roundtrip"):
-            sess.scan_step(step)
+            r = sess.scan_step(step)
+            from ..session import _has_tag
+
+            third_party_state = any(_has_tag(step[k], "$pend") for k in ("v", "x") if k in step)  # pendulum's lazy attributes (DESIGN 10.1)
+            if r is not None and r[0] and r[1] is not None and step["op"] in ("marshal", "unmarshal") and not third_party_state:
+                sess.low = r[1]  # the first attempt that was not cut short: made with next to no stack left
 
     def comparable(self, sess, i, step) -> bool:
         """May this step be compared between replicas in different environments?  Not if its
@@ -136,6 +142,15 @@ class PropBase:
                 sess.log_step(i, step, out, pre_sig=pre_sig, hit_delta=hit_delta,
                               nontrivial=self.nontrivial(sess, i, step, out, hit_delta),
                               comparable=self.comparable(sess, i, step), unordered=self.unordered(sess, i, step))
+                low = getattr(sess, "low", None)
+                if low is not None and not (isinstance(out.exc, RecursionError) if not out.ok else False):
+                    # with next to no stack left a call either dies of RecursionError or gives what it
+                    # gives at any other depth - never another member's answer, never another error
+                    a, b = low.canon(unordered=True), out.canon(unordered=True)
+                    if a != b:
+                        sess.violation("outcome-depends-on-stack-depth", i, {"op": step["op"], "near_the_limit": core.jdump(a)[:200], "normal_depth": core.jdump(b)[:200]},
+                                       sig=f"depth-dependent:{step['op']}:{'raise-vs-ok' if low.ok != out.ok else 'value'}")
+                sess.low = None
                 self.check(sess, i, step, out)
             self.finish(sess)
         finally:
